@@ -216,7 +216,17 @@ def _deserialize_from_shm(buf: pa.Buffer, schema: pa.Schema) -> pa.RecordBatch:
     # 2. Combine: schema_msg + dict/batch messages from SHM + EOS
     combined = schema_msg + buf.to_pybytes() + _IPC_EOS
     reader = ipc.open_stream(pa.py_buffer(combined))
-    return reader.read_next_batch()
+    batch = reader.read_next_batch()
+    # The messages in the segment were written without a schema and are read
+    # here under the pointer's.  Both are the peer's claim and nothing ties
+    # them together: body buffers laid out for other column types decode into
+    # arrays whose buffers are too short for their declared type, and touching
+    # such an array reads out of bounds (garbage values, or a segfault that
+    # takes the whole worker down).  The structural check is O(columns), not
+    # O(rows), and turns that into the ArrowInvalid every caller already maps
+    # to a refused batch.
+    batch.validate()
+    return batch
 
 
 # ---------------------------------------------------------------------------
